@@ -81,6 +81,7 @@ pub fn quota_case(idx: usize, g: &mut crate::gen::G) -> Value {
         } }
         // one quota only
         for d in grid(cd) { let mut r = untyped_with(&m.bytes, &m.env, &ets, &cfg(Some(d), None)); r["d"] = json!(d); r["s"] = json!(-1); runs.push(r); }
+        for sq in grid(cs) { let mut r = untyped_with(&m.bytes, &m.env, &ets, &cfg(None, Some(sq))); r["d"] = json!(-1); r["s"] = json!(sq); runs.push(r); }
     }
     json!({"idx": idx, "kind": "quota", "api": "untyped", "env": fl.nodes, "types": tids, "blob": bytesj(&m.bytes), "base": base, "big": big, "runs": runs})
 }
@@ -102,6 +103,9 @@ pub fn quota_native_case(idx: usize, reg: &[Box<dyn Ops>], g: &mut StdRng) -> Va
     if big.get("ok").is_some() {
         let (cd, cs) = (big["cd"].as_i64().unwrap(), big["cs"].as_i64().unwrap());
         for dq in grid(cd) { for sq in grid(cs) { let mut r = e.decode_with(&bytes, Some(dq), Some(sq)); r["d"] = json!(dq); r["s"] = json!(sq); runs.push(r); } }
+        // one quota only
+        for dq in grid(cd) { let mut r = e.decode_with(&bytes, Some(dq), None); r["d"] = json!(dq); r["s"] = json!(-1); runs.push(r); }
+        for sq in grid(cs) { let mut r = e.decode_with(&bytes, None, Some(sq)); r["d"] = json!(-1); r["s"] = json!(sq); runs.push(r); }
     }
     json!({"idx": idx, "kind": "quota", "api": "native", "rust": e.name(), "env": d.nodes, "types": [t], "wts": wts, "nextra": nextra, "blob": bytesj(&bytes), "base": base, "big": big, "runs": runs})
 }
@@ -128,6 +132,9 @@ pub fn quota_native_related_case(idx: usize, reg: &[Box<dyn Ops>], g: &mut crate
     if big.get("ok").is_some() {
         let (cd, cs) = (big["cd"].as_i64().unwrap(), big["cs"].as_i64().unwrap());
         for dq in grid(cd) { for sq in grid(cs) { let mut r = e.decode_with(&bytes, Some(dq), Some(sq)); r["d"] = json!(dq); r["s"] = json!(sq); runs.push(r); } }
+        // one quota only
+        for dq in grid(cd) { let mut r = e.decode_with(&bytes, Some(dq), None); r["d"] = json!(dq); r["s"] = json!(-1); runs.push(r); }
+        for sq in grid(cs) { let mut r = e.decode_with(&bytes, None, Some(sq)); r["d"] = json!(-1); r["s"] = json!(sq); runs.push(r); }
     }
     json!({"idx": idx, "kind": "quota", "api": "native", "rust": e.name(), "env": nodes, "types": [t], "nextra": 0, "blob": bytesj(&bytes), "base": base, "big": big, "runs": runs})
 }
